@@ -286,7 +286,8 @@ func rtRun(lw *lineWriter, vals []rtValue, pcnt *int, pnontriv *int, psamples *[
 	samples := *psamples
 	defer func() { *pcnt, *pnontriv, *psamples = cnt, nontriv, samples }()
 	for _, v := range vals {
-		s1 := fmt.Sprintf("vars { %s $v }\nset_account_meta(@m, \"k\", $v)\nset_tx_meta(\"k\", $v)", v.typ)
+		// (both keys are first written with a placeholder: the value written last is the one that stays)
+		s1 := fmt.Sprintf("vars { %s $v }\nset_account_meta(@m, \"k\", \"before\")\nset_tx_meta(\"k\", \"before\")\nset_account_meta(@m, \"k\", $v)\nset_tx_meta(\"k\", $v)", v.typ)
 		res1, st1 := runSimple(s1, map[string]string{"v": v.text}, nil)
 		line := J{"e": "rt", "n": cnt, "type": v.typ, "text": v.text, "canon": v.canon, "st1": st1, "st2": "", "st3": "",
 			"am1": "", "tx1": "", "txj1": "", "am2": "", "tx2": "", "am3": "", "tx3": ""}
